@@ -164,6 +164,7 @@ type File struct {
 	path   string
 	real   *os.File
 	append bool
+	off    int
 }
 
 // OpenFile replaces os.OpenFile.
@@ -202,7 +203,9 @@ func Create(path string) (*File, error) {
 // Open replaces os.Open.
 func Open(path string) (*File, error) { return OpenFile(path, os.O_RDONLY, 0) }
 
-// Write appends to the file (all vFlow uses are sequential writers).
+// Write writes at the handle's offset (at the end with O_APPEND), like a
+// sequential writer on a real file: existing content beyond what is written
+// stays unless the file was opened with O_TRUNC.
 func (fl *File) Write(b []byte) (int, error) {
 	if fl.real != nil {
 		return fl.real.Write(b)
@@ -211,8 +214,25 @@ func (fl *File) Write(b []byte) (int, error) {
 	if !ok {
 		return 0, errors.New("file removed")
 	}
-	n.data = append(n.data, b...)
+	Yield(siteFS)
+	if fl.append {
+		fl.off = len(n.data)
+	}
+	for len(n.data) < fl.off {
+		n.data = append(n.data, 0)
+	}
+	k := copy(n.data[fl.off:], b)
+	n.data = append(n.data, b[k:]...)
+	fl.off += len(b)
 	return len(b), nil
+}
+
+// Sync mirrors os.File (the simulated disk keeps what was written).
+func (fl *File) Sync() error {
+	if fl.real != nil {
+		return fl.real.Sync()
+	}
+	return nil
 }
 
 // WriteString mirrors os.File.
